@@ -34,7 +34,12 @@
 #include <map>
 #include <memory>
 #include <string>
+#include <dirent.h>
 #include <pthread.h>
+#include <sys/syscall.h>
+#include <unistd.h>
+#include <cstdio>
+#include <cstdlib>
 #include <thread>
 #include <time.h>
 #include <vector>
@@ -247,29 +252,61 @@ static void run_on(int where, std::vector<std::thread>& os, std::function<void()
 // made no progress really has nothing it can do).  On an overloaded machine - the workers run with
 // reduced OS priority - starved workers accumulate no quiet polls, so slowness can never turn
 // into a verdict.  200 quiet polls = every live worker burnt >= 100 ms of CPU without any progress.
-static long long thread_cpu_ns(std::thread& t)
+// Per-thread view of the whole process from /proc: kernel state (R = runnable/running, S = blocked) and time spent on a CPU.
+// A poll is "quiet" only if every RUNNABLE thread (other than this one) has itself consumed >= 0.5 ms of CPU since the previous
+// quiet poll: a starved runnable thread (overloaded machine) blocks the verdict, a blocked thread does not - whoever could
+// make progress has had the CPU to do so.  (A worker whose state word says `pre_sleep` but whose OS thread sits in a condition
+// variable is such a blocked thread.)
+struct tstat
 {
-    clockid_t cid;
-    if (pthread_getcpuclockid(t.native_handle(), &cid) != 0) return -1;
-    struct timespec ts;
-    if (clock_gettime(cid, &ts) != 0) return -1;
-    return ts.tv_sec * 1000000000LL + ts.tv_nsec;
-}
-static std::vector<long long> worker_cpu()
+    long long cpu_ns;
+    char st;
+};
+static std::map<int, tstat> proc_threads()
 {
-    std::vector<long long> v;
-    for (thread_pool_base* p : {g_wp, g_dp})
-        for (std::size_t i = 0; i < p->get_os_thread_count(); ++i)
+    std::map<int, tstat> m;
+    DIR* d = opendir("/proc/self/task");
+    if (d == nullptr) return m;
+    int const self = int(syscall(SYS_gettid));
+    while (dirent* e = readdir(d))
+    {
+        int tid = std::atoi(e->d_name);
+        if (tid <= 0 || tid == self) continue;
+        char path[96], buf[512];
+        tstat t{-1, '?'};
+        std::snprintf(path, sizeof(path), "/proc/self/task/%d/schedstat", tid);
+        if (FILE* f = std::fopen(path, "r"))
         {
-            bool asleep = p->get_scheduler()->get_state(i).load() == pika::runtime_state::sleeping;
-            v.push_back(asleep ? -1 : thread_cpu_ns(p->get_os_thread_handle(p->get_thread_offset() + i)));
+            long long run = 0;
+            if (std::fscanf(f, "%lld", &run) == 1) t.cpu_ns = run;
+            std::fclose(f);
         }
-    return v;
+        std::snprintf(path, sizeof(path), "/proc/self/task/%d/stat", tid);
+        if (FILE* f = std::fopen(path, "r"))
+        {
+            if (std::fgets(buf, sizeof(buf), f) != nullptr)
+            {
+                char const* p = std::strrchr(buf, ')');
+                if (p != nullptr && p[1] == ' ') t.st = p[2];
+            }
+            std::fclose(f);
+        }
+        m[tid] = t;
+    }
+    closedir(d);
+    return m;
 }
-static bool all_advanced(std::vector<long long> const& before, std::vector<long long> const& now)
+using cpu_snapshot = std::map<int, tstat>;
+static cpu_snapshot worker_cpu() { return proc_threads(); }
+static bool all_advanced(cpu_snapshot const& before, cpu_snapshot const& now)
 {
-    for (std::size_t i = 0; i < now.size() && i < before.size(); ++i)
-        if (now[i] >= 0 && before[i] >= 0 && now[i] - before[i] < 500000LL) return false;
+    for (auto const& kv : now)
+    {
+        if (kv.second.st != 'R') continue;
+        auto it = before.find(kv.first);
+        if (it == before.end() || kv.second.cpu_ns < 0 || it->second.cpu_ns < 0) return false;
+        if (kv.second.cpu_ns - it->second.cpu_ns < 500000LL) return false;
+    }
     return true;
 }
 static int wait_until(std::function<bool()> finished)
@@ -277,7 +314,7 @@ static int wait_until(std::function<bool()> finished)
     int quiet = 0;
     std::size_t last_log = 0;
     long last_done = -1;
-    std::vector<long long> last_cpu = worker_cpu();
+    cpu_snapshot last_cpu = worker_cpu();
     for (;;)
     {
         std::this_thread::sleep_for(std::chrono::milliseconds(2));
@@ -293,7 +330,7 @@ static int wait_until(std::function<bool()> finished)
         long d = g_done.load();
         if (logsz == last_log && d == last_done)
         {
-            std::vector<long long> c = worker_cpu();
+            cpu_snapshot c = worker_cpu();
             if (all_advanced(last_cpu, c))
             {
                 last_cpu = c;
